@@ -4,7 +4,7 @@ READY = True
 SPEC = {
     "targets": ["Properties/C01.vo", "Run/C01.vo"],
     "theorems": {"Properties.C01": [
-        "C01_sound_partial", "C01_rule_sound", "C01_rule_sound_merge", "C01_plain_fragment_inside",
+        "C01_sound_guarded", "C01_sound_partial", "C01_rule_sound", "C01_rule_sound_merge", "C01_plain_fragment_inside",
         "C01_mask_id", "C01_key_tables", "C01_fixed_witnesses_blocked", "C01_fixed_witnesses_blocked_round3", "C01_fixed_witnesses_blocked_tag_kind",
         "C01_sound_refuted_merge_not_alias", "C01_nonvacuous", "C01_nonvacuous_alias", "C01_nonvacuous_merge"]},
     "harness_args": lambda tier: (["C01", "--n", 300, "--cat", 40, "--stress", 4] if tier == "quick"
